@@ -71,6 +71,14 @@ impl Property for C02 {
             ..GenCfg::default()
         };
         let header = if settings.prelude { "" } else { NO_PRELUDE_HEADER };
+        if kind == 9 && t.chance(1, 3) {
+            // (e) rigid type variable templates: a value of an outer rigid type variable is
+            // passed off at an inner quantified one (same or different name, with or without a
+            // type alias in between).  All of them are ill typed; what matters is that an
+            // accepted one does not go wrong.
+            let src = format!("{}{}", header, rigid_template(t));
+            return json!({"k": "mutant", "src": src, "bits": bits, "io": false, "features": ["rigid_variable_template"]});
+        }
         if kind == 9 && t.chance(1, 2) {
             // (d) row polymorphism templates; template 4 is ill typed in HM (a correct checker
             // rejects it), the others have reference outcomes
@@ -206,6 +214,24 @@ impl Property for C02 {
             return j;
         }
         j.classes.push(format!("accepted:{}", kind));
+        // A record VALUE whose reported type is an open row (`forall a . { x : Int | a }`): the
+        // symptom of KF-C02-01 (an open row unified with a closed record stays open and keeps the
+        // open row's field order)
+        {
+            let ty_text = match &out {
+                Outcome::Value { ty, .. } | Outcome::BadShape { ty, .. } => ty.replace('\n', " "),
+                _ => String::new(),
+            };
+            let t = ty_text.trim();
+            if t.starts_with("forall") {
+                if let Some(p) = t.find(" . ") {
+                    let body = t[p + 3..].trim();
+                    if body.starts_with('{') && body.ends_with('}') && body.rsplit('|').next().map(|x| x.trim().trim_end_matches('}').trim().chars().all(|c| c.is_alphanumeric())).unwrap_or(false) && body.contains('|') {
+                        feats.push("open_row_in_result_record_type".into());
+                    }
+                }
+            }
+        }
         match &out {
             Outcome::BadShape { why, ty } => {
                 let text = format!("{} (type {})", why, ty);
@@ -428,4 +454,48 @@ fn wrap_io(prog: &Program, style: crate::gen::print::Style, header: &str) -> Str
     );
     let h = format!("{}let io_applicative = (import! std.io).applicative\n", header);
     print_program(&p, style, &h)
+}
+
+/// see gen(): programs that confuse two rigid type variables
+fn rigid_template(t: &mut Tape) -> String {
+    // (witness given to the inner function, argument given to the outer one, how the result is used)
+    let pairs = [("1", "\"s\""), ("\"s\"", "1"), ("1", "(\\z -> z)"), ("(\\z -> z)", "1"), ("1.5", "1"), ("1", "[1, 2]")];
+    let (witness, arg) = pairs[t.pick(pairs.len())];
+    let inner_var = if t.chance(2, 3) { "a" } else { "b" };
+    let alias = t.pick(4);
+    let (decl, boxt, wrap, unwrap): (String, String, String, String) = match alias {
+        0 => ("type Box a = { value : a }\n".into(), format!("Box {}", inner_var), "{ value = x }".into(), "(inner W).value".into()),
+        1 => ("type Box a = | Box a\n".into(), format!("Box {}", inner_var), "Box x".into(), "(match inner W with\n        | Box v -> v)".into()),
+        2 => ("type Box a = { value : a }\ntype Bag a = { box : Box a }\n".into(), format!("Bag {}", inner_var), "{ box = { value = x } }".into(), "(inner W).box.value".into()),
+        _ => (String::new(), inner_var.to_string(), "x".into(), "(inner W)".into()),
+    };
+    let unwrap = unwrap.replace('W', witness);
+    let (res_ty, use_expr) = match t.pick(4) {
+        0 => ("Int", format!("{} #Int+ 1", unwrap)),
+        1 => ("Int", format!("{} 1", unwrap)),
+        2 => ("String", unwrap.clone()),
+        _ => ("Int", unwrap.clone()),
+    };
+    match t.pick(3) {
+        0 | 1 => format!(
+            "{decl}let outer x : a -> {res} =\n    let r = {wrap}\n    let inner y : forall {v} . {v} -> {boxt} = r\n    {use_expr}\nouter {arg}\n",
+            decl = decl,
+            res = res_ty,
+            wrap = wrap,
+            v = inner_var,
+            boxt = boxt,
+            use_expr = use_expr,
+            arg = arg
+        ),
+        _ => format!(
+            "{decl}let cast x : a -> {boxt} = {wrap_y}\nlet outer x : a -> {res} =\n    let inner y : forall {v} . {v} -> {boxt} = cast x\n    {use_expr}\nouter {arg}\n",
+            decl = decl,
+            boxt = boxt,
+            wrap_y = wrap,
+            res = res_ty,
+            v = inner_var,
+            use_expr = use_expr,
+            arg = arg
+        ),
+    }
 }
